@@ -879,7 +879,7 @@ impl Database {
 
             if !toastable_col_indices.is_empty() {
                 use crate::storage::toast::{
-                    make_chunk_key, needs_toast, ToastPointer, TOAST_CHUNK_SIZE,
+                    is_toast_pointer, make_chunk_key, needs_toast, ToastPointer, TOAST_CHUNK_SIZE,
                 };
 
                 for &col_idx in &toastable_col_indices {
@@ -891,7 +891,9 @@ impl Database {
                     };
 
                     if let Some(data) = data {
-                        if needs_toast(data) {
+                        // A value that looks like a TOAST pointer (17 bytes, 0xFE first) must not
+                        // be stored inline: readers would take it for a pointer.
+                        if needs_toast(data) || is_toast_pointer(data) {
                             let toast_key = toast_file_key.as_ref().unwrap();
                             let toast_storage_arc = storage_map
                                 .get(toast_key)
